@@ -15,8 +15,10 @@ from vt.common import VERIF, HarnessError
 
 LEVEL = 'other'
 EXPLANATION = (
-    'PYTHON HALF. Names (any length, all of Unicode): z3 regular-language inclusions show that everything the real '
-    'escape_parsable emits is matched, as a whole and with no other split, by the identifier rule of the real grammar '
+    'PYTHON HALF. Names (any length, all of Unicode): the set of names escape_parsable returns unchanged is DERIVED from '
+    'its source (the branch condition — re.match/fullmatch/search on the module\'s compiled pattern with Python\'s ^ $ '
+    'semantics — is translated; only the escaped-branch expression and unescape_parsable, which call the C codec, are '
+    'pinned); z3 regular-language inclusions show that everything the real escape_parsable emits is matched, as a whole and with no other split, by the identifier rule of the real grammar '
     'text (regexes taken from type_grammar_str), and that unescape_parsable inverts it: the per-code-point escape is '
     'tabulated from the REAL functions over all 0x110000 code points (model == real, unescape(escape(c)) == c), and '
     'z3 proves the two facts that lift this to strings of any length — every occurrence of backslash-backtick in a '
@@ -77,26 +79,19 @@ def empty(R, name, z, on_witness, twin=None):
 
 
 # ---- Python half: names ---------------------------------------------------------------------------------
-def check_escape_shape(J, text):
-    """escape_parsable must still be `if _parsable_str.fullmatch(s): return s  else: return '`' + <codec>.replace('`','\\`') + '`'`
-    and unescape_parsable `bytes(s.replace('\\`','`'),'utf-8').decode('unicode_escape')` (semantics are validated
-    against the real functions separately; this pins the parts the model takes from the source)."""
-    node, seg, _ = strlang.load_function(loader.src(JAVA_PY), 'escape_parsable')
-    d = ast.unparse(node)
-    want = ["_parsable_str.fullmatch(s)", "return s", "'`' + s.encode('unicode_escape').decode('utf-8').replace('`', '\\\\`') + '`'"]
-    for wnt in want:
-        if wnt not in d:
-            raise HarnessError(f'escape_parsable no longer has the modelled shape (missing {wnt!r})')
+def check_unescape_shape():
+    """unescape_parsable is pinned to `bytes(s.replace('\\`','`'),'utf-8').decode('unicode_escape')`: the codec is C code and
+    cannot be derived (its per-code-point and token behaviour is validated against the real function every run)."""
     node2, seg2, _ = strlang.load_function(loader.src(JAVA_PY), 'unescape_parsable')
     d2 = ast.unparse(node2)
     if "bytes(s.replace('\\\\`', '`'), 'utf-8').decode('unicode_escape')" not in d2:
         raise HarnessError('unescape_parsable no longer has the modelled shape')
-    return (node, seg), (node2, seg2)
+    return node2, seg2
 
 
-def model_escape(P_re, s):
+def model_escape(is_raw, s):
     from harness import C31_names as N
-    if P_re.fullmatch(s):
+    if is_raw(s):
         return s
     return '`' + ''.join(N.esc_model(ord(c)) for c in s) + '`'
 
@@ -104,10 +99,13 @@ def model_escape(P_re, s):
 def names_half(R, m):
     from harness import C31_names as N
     J, T, g = m.J, m.T, m.grammar
-    (n1, seg1), (n2, seg2) = check_escape_shape(J, None)
-    R.encode(f'{JAVA_PY}:{n1.lineno} escape_parsable', seg1)
+    n1, seg1, raw_cond = N.raw_branch(loader.src(JAVA_PY))
+    n2, seg2 = check_unescape_shape()
+    R.encode(f'{JAVA_PY}:{n1.lineno} escape_parsable (condition of the as-is branch translated: {ast.unparse(raw_cond)})', seg1)
     R.encode(f'{JAVA_PY}:{n2.lineno} unescape_parsable', seg2)
-    R.encode(f'{JAVA_PY} _parsable_str', J._parsable_str.pattern)
+    for nm_, v_ in vars(J).items():
+        if isinstance(v_, re.Pattern) and any(isinstance(x, ast.Name) and x.id == nm_ for x in ast.walk(raw_cond)):
+            R.encode(f'{JAVA_PY} {nm_} (compiled pattern used by escape_parsable)', v_.pattern)
     R.encode(f'{PARSING_PY} type_grammar_str', m.tp.type_grammar_str)
     simple_pat, simple_fl = g.regex_of('simple_identifier')
     esc_pat, esc_fl = g.regex_of('escaped_identifier')
@@ -135,7 +133,8 @@ def names_half(R, m):
         rt = strlang.ReTranslator() if red is None else sx.ReducedReTranslator(red)
         cs = rt.charsets
         L = {}
-        L['P'] = rt.language(J._parsable_str, 'fullmatch')
+        L['P'], pcs = N.raw_language(n1, raw_cond, vars(J), red)
+        cs.extend(pcs)
         L['SIMPLE'] = rt.language(simple_pat, 'fullmatch', simple_fl)
         L['ESCID'] = rt.language(esc_pat, 'fullmatch', esc_fl)
         L['WORD1'] = rt.language(r'\w', 'fullmatch')
@@ -208,15 +207,19 @@ def names_half(R, m):
                           '\x80', 'ÿ', 'Ā', '\uffff', '\U00010000', '\U0010ffff', 'a\U0001f600', '\\x41', '\\u0041', '\\N{DASH}', '\\101',
                           'a' * 40, '_', '9', 'int32', 'struct', '\\\n', "'", '"', 'ǅ', 'ⅷ', '²', '_\u0300']
               if w not in names]
-    P_re = J._parsable_str
+    def is_raw(w):
+        return in_(P, w)
+
     for w in names:
         R.validation_points += 1
-        for lang, pat, what in ((P, P_re, '_parsable_str'), (SIMPLE, re.compile(simple_pat, simple_fl), 'simple_identifier'),
+        for lang, pat, what in ((SIMPLE, re.compile(simple_pat, simple_fl), 'simple_identifier'),
                                 (ESCID, re.compile(esc_pat, esc_fl), 'escaped_identifier')):
             if in_(lang, w) != (pat.fullmatch(w) is not None):
                 raise HarnessError(f'regex translation of {what} disagrees with re.fullmatch on {w!r}')
         e_real = J.escape_parsable(w)
-        if e_real != model_escape(P_re, w):
+        if (e_real == w) != is_raw(w):
+            raise HarnessError(f'derived as-is language disagrees with the real escape_parsable on {w!r}: real returns {e_real!r}')
+        if e_real != model_escape(is_raw, w):
             raise HarnessError(f'escape model disagrees with the real escape_parsable on {w!r}: {e_real!r}')
         if not in_(EMIT, e_real):
             raise HarnessError(f'EMIT language does not contain the real escape_parsable({w!r}) = {e_real!r}')
@@ -377,6 +380,8 @@ def run(R):
     R.assume('parsimonious is absent: the real grammar text and the real TypeConstructor run on a stand-in PEG engine '
              '(harness/C31_peg.py: ordered choice, greedy regex terms, parsimonious node shapes)',
              'ReferenceGenome objects are registered in a registry-only backend stub (real Backend.add/get_reference)',
+             'escape_parsable: the condition of the as-is branch is translated from the AST (vt.strlang.PredTranslator); the escaped '
+             'expression and unescape_parsable are pinned by AST comparison because the unicode_escape codec is C code',
              'the unicode_escape codec is modelled per code point (validated on all 0x110000 code points against the real '
              'functions each run); the lift to strings rests on the two z3-proved token facts plus the left-to-right, '
              'bounded-lookahead behaviour of the decoder on the token shapes listed in harness/C31_names.py (validated on '
